@@ -137,8 +137,14 @@ def tlc(module_path, cfg_path, env=None, workers=None, timeout=900, extra=None, 
             TIMEOUTS.append('TLC timed out after %ss on %s' % (timeout, module_path))
             return r
         raise Broken('TLC timed out after %ss on %s' % (timeout, module_path))
-    if rc not in (0, 12, 13) and not r.violated and not r.post_failed:
-        raise Broken('TLC failed (rc=%d) on %s:\n%s' % (rc, module_path, out[-5000:]))
+    if rc not in (0, 12, 13) and not r.post_failed:
+        if r.violated and not r.finished and cont:
+            # ended abnormally (killed, out of memory, evaluation error) after printing violations: as for a timeout, what was found is
+            # reported, and the check is failed as broken if nothing new was among it
+            TIMEOUTS.append('TLC ended abnormally (rc=%d) on %s: %s' % (rc, module_path, out[-300:].replace('\n', ' | ')))
+            return r
+        if not r.violated:
+            raise Broken('TLC failed (rc=%d) on %s:\n%s' % (rc, module_path, out[-5000:]))
     return r
 
 
